@@ -52,11 +52,11 @@ class Holds(Matcher):
 
 GROUPS = {
     "hql": ["STORED_AS", "LOCATION", "ROW_FORMAT", "ROW_FORMAT_SERDE", "FIELDS_TERMINATED", "TBLPROPERTIES", "PARTITIONED_BY",
-            "CLUSTERED_BY", "INTO_BUCKETS", "COMMENT"],
+            "CLUSTERED_BY", "CLUSTERED_BY_2", "INTO_BUCKETS", "COMMENT"],
     "mysql": ["ENGINE", "DEFAULT_CHARSET", "AUTO_INCREMENT", "COMMENT_EQ"],
     "oracle": ["TABLESPACE", "STORAGE", "ORGANIZATION_INDEX"],
     "redshift": ["DISTSTYLE", "DISTKEY"],
-    "snowflake": ["CLUSTER_BY", "COMMENT_EQ", "RETENTION", "CHANGE_TRACKING", "WITH_TAG"],
+    "snowflake": ["CLUSTER_BY", "CLUSTER_BY_2", "COMMENT_EQ", "RETENTION", "CHANGE_TRACKING", "WITH_TAG"],
     "mssql": ["ON", "TEXTIMAGE_ON", "WITH"],
     "bigquery": ["OPTIONS", "PARTITION_BY_F", "CLUSTER_BY_BARE"],
     "postgres": ["INHERITS", "PARTITION_BY_RANGE"],
@@ -81,6 +81,7 @@ def build(ctx, group="hql", tier="quick", only=None, final=None, final_modes=Non
     typ = pl("type", ["int", "varchar", "DECIMAL", "Text", "bigint", "num_9"])
     val = pl("val", ["parquet", "InnoDB", "utf8", "Orc", "ts_1", "PAGE"])
     val2 = pl("val2", ["x", "y1", "Zed", "q_2", "something", "V2"])
+    kwcol = "KWCOL"     # placeholder: one edge per keyword-shaped column name (see below)
     s1 = lm.custom("'s1'", ["'a'", "'Hello'", "'/path/x'", "'it_s'", "'k.1'", "'p = q . r'"], "STR")
     s2 = lm.custom("'s2'", ["'b'", "'World'", "'/other/y'", "'v_s'", "'v.2'", "'C d'"], "STR")
     # body: CREATE TABLE t ( a type NOT NULL , b type ( n ) )
@@ -101,6 +102,9 @@ def build(ctx, group="hql", tier="quick", only=None, final=None, final_modes=Non
         "TBLPROPERTIES": ("tblproperties", [("KW", "TBLPROPERTIES"), P["("], (s1, "k"), P["="], (s2, "v"), P[")"]]),
         "PARTITIONED_BY": ("partitioned_by", [("KW", "PARTITIONED"), ("KW", "BY"), P["("], (val2, "k"), (typ, "v"), P[")"]]),
         "CLUSTERED_BY": ("clustered_by", [("KW", "CLUSTERED"), ("KW", "BY"), P["("], (ca, "v"), P[")"]]),
+        # a list of two columns whose second one is called like a keyword of the column-definition vocabulary
+        "CLUSTERED_BY_2": ("clustered_by", [("KW", "CLUSTERED"), ("KW", "BY"), P["("], (ca, "k"), P[","], (kwcol, "v"), P[")"]]),
+        "CLUSTER_BY_2": ("cluster_by", [("KW", "CLUSTER"), ("KW", "BY"), P["("], (ca, "k"), P[","], (kwcol, "v"), P[")"]]),
         "INTO_BUCKETS": ("into_buckets", [("KW", "INTO"), (N["NUM"], "v"), (pl("BUCKETS", ["BUCKETS", "buckets", "Buckets"]), None)]),
         "COMMENT": ("comment", [("KW", "COMMENT"), (s1, "v")]),
         "ENGINE": ("engine", [("KW", "ENGINE"), P["="], (val, "v")]),
@@ -134,7 +138,23 @@ def build(ctx, group="hql", tier="quick", only=None, final=None, final_modes=Non
     for cname in names:
         key, ws = W_[cname]
         kind = "clause:" + cname
-        e = s.words(home, kind, [w if not (isinstance(w, tuple) and w[0] != "KW" and w[1] is None) else w[0] for w in ws])
+        ws = [w if not (isinstance(w, tuple) and w[0] != "KW" and w[1] is None) else w[0] for w in ws]
+        pos = [i for i, w in enumerate(ws) if isinstance(w, tuple) and w[0] == "KWCOL"]
+        if pos:
+            # a column called like a word of the column-definition vocabulary, in both spellings
+            i = pos[0]
+            a0 = s.words(home, kind, ws[:i])
+            b0 = s.new()
+            for k in ("ORDER", "SET", "NULL", "ARRAY", "ENUM", "ENCODE", "GENERATED", "DEFAULT"):    # (not the clause-opening words C06 excludes)
+                for case in ("upper", "other"):
+                    try:
+                        wk = lm.kw(k, case)
+                    except Exception:
+                        continue
+                    s.e[a0].append((wk, Tag(kind, False, ws[i][1]), b0))
+            e = s.words(b0, kind, ws[i + 1:], begin=False)
+        else:
+            e = s.words(home, kind, ws)
         s.eps(e, home)
         kinds[kind] = clause_expect(key)
     from . import table as T
